@@ -6,6 +6,7 @@ KF='/verif/known_findings.jsonl'
 F=r'(:diagram-has-(underscore-reference|glob|import))?'
 T=r'(:target-(inherited|local|absent|unknown))?'
 Q=F+T
+K=r'(:target-in-flat-key)?'
 R=[
 # C36
 ('C36', r'^import-update-result-does-not-compile:remove:', 'UpdateImport(text, path, nil) on `a: {style: @sx}` (an import used as the value of a reserved key that needs a value) only drops the import and leaves the bare key `style`, which does not compile'),
@@ -33,14 +34,14 @@ R=[
 ('C38', r'^delete-object'+T+r':object-added$', 'Delete of a sql_table that has a connection from its own column to itself (`t.id -> t`) keeps the column as a stray top-level object `id` (ensureNode re-creates the other end point of every removed connection, here a column of the table being deleted)'),
 ('C38', r'^delete-object'+F+T+r':object-lost$', 'Delete of an object that is declared only inside a connection key below a container that itself exists only through that key (`a.d.b -> a.c`, delete a.d.b) removes the connection and with it the intermediate container a.d; only the other end point is re-created'),
 # C39
-('C39', r'^(rename|move-[a-z-]+):diagram-has-import'+T+r':object-added', 'Rename / Move of an object that comes from an imported file succeeds but can only rewrite the local references (`a -> i` becomes `a -> z`): the imported object keeps its name and place and a new empty object appears'),
-('C39', r'^move-[a-z-]+:diagram-has-import'+T+r':object-lost', 'Move of a container whose children come from a spread import inside its map (`c: {...@y}`) without its descendants re-creates the container without the import: the imported children are lost instead of staying in the former parent'),
-('C39', r'^move-with(out)?-descendants:diagram-has-underscore-reference'+T+r':object-(label|attributes)-changed', 'Move of an object declared through a flat key (`a.b: L1 {style.fill: …}`) across scopes when another scope refers to it with underscores (`_.a.b`) slices the wrong key: label and style end up on the former parent (`a: L1 {…}`) and the moved object is left bare'),
-('C39', r'^move-with-descendants:diagram-has-underscore-reference'+T+r':object-lost', 'Move(d, a.d, includeDescendants) when d\'s map only holds an underscore reference (`d: L5 {_.a.b}`) deletes d altogether: the key is removed from its scope and never re-inserted'),
-('C39', r'^move-with-descendants:diagram-has-underscore-reference'+T+r':object-added', 'Move of a container whose map refers with underscores to an object with a quoted dotted name (`e -> _.a."q.r"`) re-quotes the already formatted ID (`_.\'"q.r"\'`): the connection is re-attached to a new object named `"q.r"` with the quotes in the name'),
-('C39', r'^move-without-descendants'+F+r':object-(added|lost)', 'Move of a container WITHOUT its descendants into its own former child or grandchild (`Move(a, a.c.a)`) updates connection references as if the old path still existed (`a.c.a -> e`): a new object chain a.c.a is created at the root and the moved object loses label/attributes'),
-('C39', r'^move-with(out)?-descendants'+F+r':target-local:object-lost', 'Move, addressed to a scenario board, of an object that the board declares through a flat key (`m.n`) to the board root removes the key segment and never re-inserts the object: `m.n` becomes `m` and n is lost'),
-('C39', r'^rename'+F+r':target-local:object-lost', 'Rename, addressed to a step board, to a name that the same board deletes further down (`a: null`) is not made unique (the nulled name counts as free): the renamed object is then removed by the null'),
+('C39', r'^(rename|move-[a-z-]+):diagram-has-import'+K+T+r':object-added', 'Rename / Move of an object that comes from an imported file succeeds but can only rewrite the local references (`a -> i` becomes `a -> z`): the imported object keeps its name and place and a new empty object appears'),
+('C39', r'^move-[a-z-]+:diagram-has-import'+K+T+r':object-lost', 'Move of a container whose children come from a spread import inside its map (`c: {...@y}`) without its descendants re-creates the container without the import: the imported children are lost instead of staying in the former parent'),
+('C39', r'^move-with(out)?-descendants(:diagram-has-underscore-reference)?:target-in-flat-key'+T+r':object-(label|attributes)-changed', 'Move across scopes of an object declared through (or being the prefix of) a flat key (`a.b: L1 {style.fill: …}`, `a.c: L2` + `a: L3 {n}`) while the parent has further references (`a`, `a: L3`, `_.a.b`) slices the wrong key: label and style end up on the former parent (`a: L1 {…}`) and the moved object is left bare'),
+('C39', r'^move-with-descendants:diagram-has-underscore-reference'+K+T+r':object-lost', 'Move(d, a.d, includeDescendants) when d\'s map only holds an underscore reference (`d: L5 {_.a.b}`) deletes d altogether: the key is removed from its scope and never re-inserted'),
+('C39', r'^move-with-descendants:diagram-has-underscore-reference'+K+T+r':object-added', 'Move of a container whose map refers with underscores to an object with a quoted dotted name (`e -> _.a."q.r"`) re-quotes the already formatted ID (`_.\'"q.r"\'`): the connection is re-attached to a new object named `"q.r"` with the quotes in the name'),
+('C39', r'^move-without-descendants'+F+K+r':object-(added|lost)', 'Move of a container WITHOUT its descendants into its own former child or grandchild (`Move(a, a.c.a)`) updates connection references as if the old path still existed (`a.c.a -> e`): a new object chain a.c.a is created at the root and the moved object loses label/attributes'),
+('C39', r'^move-with(out)?-descendants'+F+K+r':target-local:object-lost', 'Move, addressed to a scenario board, of an object that the board declares through a flat key (`m.n`) to the board root removes the key segment and never re-inserts the object: `m.n` becomes `m` and n is lost'),
+('C39', r'^rename'+F+K+r':target-local:object-lost', 'Rename, addressed to a step board, to a name that the same board deletes further down (`a: null`) is not made unique (the nulled name counts as free): the renamed object is then removed by the null'),
 # C40
 ('C40', r'^deltas:delete'+F+r':connection:change-predicted-for-removed-element', 'DeleteIDDeltas of a container predicts a new ID for a connection between a child and the container itself (`(a.a -> a)[0]` -> `(a -> a)[0]`), but Delete removes that connection because it is attached to the deleted object'),
 ('C40', r'^deltas:(delete|move)'+F+r':connection:predicted-new-id-wrong', 'the prediction is what a correct edit would give; the edit itself misplaces the connection — Move of a container without descendants into its own child leaves `a.c.a -> e` (C39 move-without-descendants:object-added), and the consequence of the underscore-stripping defect of Delete/Move (C38 delete-object:…:object-added): the surviving connection `e -> _.b` ends up attached to a new object d.b, so its ID is d.(e -> b)[0] while the prediction says (d.e -> b)[0]'),
